@@ -267,7 +267,7 @@ def tagged_prelude(tp, n, t, owners, obs):
 
 def tagged_seq_eq(tp, out, offset="0", msg="collected sequence differs from the sequential one"):
     d = "*" if tp.final_is_ref() else ""
-    s = f"    let mut j = {offset};\n"
+    s = f"    ORACLE.store(true, AO::Relaxed);\n    let mut j = {offset};\n"
     s += f"    for x in {tp.seq()} {{ assert!(j < {out}.len() && {d}{out}[j] == {d}x, \"{msg}\"); j += 1; }}\n"
     s += f"    assert!(j == {out}.len(), \"{msg} (length)\");\n"
     return s
@@ -277,7 +277,7 @@ def tagged_multiset_eq(tp, out, msg="collect_x is not a permutation of the seque
     d = "*" if tp.final_is_ref() else ""
     s = "    let pt: usize = kani::any();\n    let pv: u8 = kani::any();\n    let mut c1 = 0usize;\n    let mut c2 = 0usize;\n    let mut l2 = 0usize;\n"
     s += f"    let mut j = 0;\n    while j < {out}.len() {{ if {d}{out}[j] == (pt, pv) {{ c1 += 1; }} j += 1; }}\n"
-    s += f"    for x in {tp.seq()} {{ if {d}x == (pt, pv) {{ c2 += 1; }} l2 += 1; }}\n"
+    s += f"    ORACLE.store(true, AO::Relaxed);\n    for x in {tp.seq()} {{ if {d}x == (pt, pv) {{ c2 += 1; }} l2 += 1; }}\n"
     s += f"    assert!(c1 == c2 && l2 == {out}.len(), \"{msg}\");\n"
     return s
 
